@@ -19,7 +19,7 @@ import DymVerif.Props.C03
 import DymVerif.Lemmas.CoreXEndSlash
 import DymVerif.Lemmas.CoreXLiable
 namespace DymVerif.C06X
-open DymVerif DymVerif.Core DymVerif.Core.LevNs
+open DymVerif DymVerif.Core DymVerif.Core.LevNs DymVerif.Core.LevNs.XEnd DymVerif.Core.XLiable
 
 -- ================================================================================================
 -- (a) what an accepted withdrawal requires
@@ -214,6 +214,38 @@ theorem unbond_requires (s s' : St) (a : Addr) (h : apply s (.unbond a) = .ok s'
                             · injection h0 with h0; injection h0 with _ e2; subst e2; rfl
                       split <;> exact this
 
+/-- **withdraw_requires** — the two messages together, in the shape of kind 1 of
+    `C06.bond_decreases_only_by`: in ANY state, if `MsgUnbond(a)` or `MsgDecreaseBond(a, ·)` is accepted
+    and `a`'s bond is strictly smaller afterwards, then the decrease `d` was a withdrawal satisfying
+    `Paid`: `a` was neither proposer nor successor of its rollapp, had no unfinalized height on record,
+    `d` went to `a`'s own address out of the module account, and the remaining bond is zero (unbonded)
+    or at least the rollapp's minimum bond. -/
+theorem withdraw_requires (s s' : St) (a : Addr) (o : Op) (ho : o = .unbond a ∨ ∃ amt, o = .bondDec a amt)
+    (h : apply s o = .ok s') (q q' : Seq) (hq : getSeq s a = some q) (hq' : getSeq s' a = some q')
+    (hlt : q'.tokens < q.tokens) : ∃ r, Paid s s' a (q.tokens - q'.tokens) q q' r := by
+  rcases ho with ho | ⟨amt, ho⟩
+  · subst ho
+    obtain ⟨q0, r, hq0, hr, hc⟩ := unbond_requires s s' a h
+    have e1 : q0 = q := by rw [hq] at hq0; injection hq0 with hq0; exact hq0.symm
+    subst e1
+    rcases hc with ⟨_, hrec, _⟩ | ⟨_, q1, pd, ht, _⟩
+    · exfalso
+      rw [hq'] at hrec; injection hrec with hrec
+      rw [hrec] at hlt
+      exact Nat.lt_irrefl _ hlt
+    · have e2 : q1 = q' := by have := pd.seq'; rw [hq'] at this; injection this with this; exact this.symm
+      subst e2
+      refine ⟨r, ?_⟩
+      rw [ht, Nat.sub_zero]; exact pd
+  · subst ho
+    obtain ⟨_, q0, q1, r, pd⟩ := bondDec_requires s s' a amt h
+    have e1 : q0 = q := by have := pd.seq; rw [hq] at this; injection this with this; exact this.symm
+    subst e1
+    have e2 : q1 = q' := by have := pd.seq'; rw [hq'] at this; injection this with this; exact this.symm
+    subst e2
+    have : q0.tokens - q1.tokens = amt := by have := pd.bond; omega
+    exact ⟨r, by rw [this]; exact pd⟩
+
 /-- **withdraw_blocked (messages)** — in ANY state, while `a` is the proposer or the successor of its
     rollapp, or has a sequencer-height record (an unfinalized rollapp height it posted), its
     `MsgDecreaseBond` is refused whatever the amount, and its `MsgUnbond` pays nothing: it is refused,
@@ -358,6 +390,43 @@ theorem end_decrease_is_liveness_slash (p : Params) (ops : List Op) (f : List (N
   rw [hs]
   show q.tokens - (q.tokens - livSlashAmt p q.tokens) = livSlashAmt p q.tokens
   omega
+
+/-- **bond_decrease_conditions_run** — the conditions behind the kinds of `C06.bond_decreases_only_by_run`,
+    along every run: if `a`'s bond is lower after the next op `o` than before it, then
+
+    * if `o` is `a`'s own `MsgUnbond` / `MsgDecreaseBond` (kind 1), the withdrawal satisfied `Paid`: not
+      proposer, not successor, no unfinalized height on record, refunded to its own address, remainder
+      zero-and-unbonded or at least the minimum bond;
+    * if `o` is a block end (kind 3), `a` is the proposer of a rollapp whose liveness event height is the
+      current hub height, and the decrease is exactly one liveness slash `livSlashAmt p q.tokens`.
+
+    (`C06.bond_decreases_only_by_run` says that `o` IS of one of the listed kinds — the remaining kind,
+    a punishment naming `a`, has no pre-condition on `a` at all — and gives the money flow of each.) -/
+theorem bond_decrease_conditions_run (p : Params) (ops : List Op) (o : Op) (a : Addr) (q q' : Seq)
+    (hq : getSeq (run p ops) a = some q) (hq' : getSeq (run p (ops ++ [o])) a = some q') (hlt : q'.tokens < q.tokens) :
+    ((o = .unbond a ∨ ∃ amt, o = .bondDec a amt) →
+      ∃ r, Paid (run p ops) (run p (ops ++ [o])) a (q.tokens - q'.tokens) q q' r) ∧
+    (∀ f, o = .end_ f → ∃ ra r, getRa (run p ops) ra = some r ∧ r.proposer = some a ∧ r.evH = (run p ops).h ∧
+      q' = slashOnce p q ∧ q.tokens - q'.tokens = livSlashAmt p q.tokens) := by
+  have hr : run p (ops ++ [o]) = (step (run p ops) o).1 := by
+    unfold run; rw [List.foldl_append]; rfl
+  constructor
+  · intro ho
+    have hap : apply (run p ops) o = .ok (run p (ops ++ [o])) := by
+      rw [hr] at hq' ⊢
+      unfold step at hq' ⊢
+      cases h : apply (run p ops) o with
+      | ok s' => rfl
+      | error e =>
+        exfalso
+        rw [h] at hq'
+        simp only at hq'
+        rw [hq] at hq'; injection hq' with hq'; rw [hq'] at hlt; exact Nat.lt_irrefl _ hlt
+    exact withdraw_requires _ _ a o ho hap q q' hq hq' hlt
+  · intro f ho
+    subst ho
+    rw [hr] at hq'
+    exact end_decrease_is_liveness_slash p ops f a q q' hq hq' hlt
 
 -- ================================================================================================
 -- non-vacuity
